@@ -30,10 +30,11 @@
      Known_C13_id_jump           the block id is not the parent's id + 1 (ids are not checked)
      Known_C02_saturated         an input or output sum of 2^64 or more (saturating sums)
    "accepted" in the positive theorems means accepted with all consensus values evaluated in
-   unbounded arithmetic (validate_m MInf); a block that is accepted only because a u64
-   operation wrapped is outside them (the harness runs both profiles against the model, which
-   has every u64 operation explicit). *)
-From Saito Require Import Base CV Supply Known CVProofs LedgerProofs SupplyProofs CVWitness.
+   unbounded arithmetic (validate_m MInf).  For the debug profile (overflow checks) that is
+   implied by acceptance in u64 arithmetic (C02_debug_accept_is_unbounded_accept); in the release
+   profile a block that is accepted only because a u64 operation wrapped is outside the theorems
+   (the harness runs both profiles against the model, which has every u64 operation explicit). *)
+From Saito Require Import Base CV Supply Known CVProofs LedgerProofs SupplyProofs ModeProofs CVWitness.
 
 (* one accepted block leaves the supply unchanged; for every pair of cap functions
    (x*1.5, x*0.05), every configuration *)
@@ -43,6 +44,25 @@ Theorem C02_supply_step : forall cap15 cap05 cf st b,
   clean cap15 cap05 cf st b = true ->
   supply (cf_gp cf) (wind cf st b) = supply (cf_gp cf) st.
 Proof. exact supply_step. Qed.
+
+(* with overflow checks on (debug profile) no u64 operation of the model ever returns a wrapped
+   value: what the u64 validation accepts, the unbounded validation accepts ... *)
+Theorem C02_debug_accept_is_unbounded_accept : forall cap15 cap05 cf st b,
+  cf_dbg cf = true ->
+  validate cap15 cap05 cf st b = Ok true ->
+  validate_m cap15 cap05 cf MInf st b = Ok true.
+Proof. exact debug_accept_is_unbounded_accept. Qed.
+
+(* ... so for the debug profile the step theorem speaks about the validation function as it runs *)
+Theorem C02_supply_step_debug : forall cap15 cap05 cf st b,
+  cf_dbg cf = true -> Inv st -> located b ->
+  validate cap15 cap05 cf st b = Ok true ->
+  clean cap15 cap05 cf st b = true ->
+  supply (cf_gp cf) (wind cf st b) = supply (cf_gp cf) st.
+Proof.
+  intros cap15 cap05 cf st b Hd HI Hl Hv Hc.
+  exact (supply_step cap15 cap05 cf st b HI Hl (debug_accept_is_unbounded_accept _ _ _ _ _ Hd Hv) Hc).
+Qed.
 
 (* the state invariant used above is kept by every such block and holds after the genesis block *)
 Theorem C02_invariant_kept : forall cap15 cap05 cf st b,
@@ -129,6 +149,8 @@ Example C02_example_values :
 Proof. repeat split; vm_compute; reflexivity. Qed.
 
 Print Assumptions C02_supply_step.
+Print Assumptions C02_debug_accept_is_unbounded_accept.
+Print Assumptions C02_supply_step_debug.
 Print Assumptions C02_invariant_kept.
 Print Assumptions C02_supply_conserved.
 Print Assumptions C02_no_overflow_mint.
